@@ -22,7 +22,7 @@ EXPLANATION = (
     "nothing reachable from the liquidation touches the wallet. R-CONST: 0.5 / 1 / 0.95 / 1."
 )
 
-FX = ["subtract_from_balance", "add_to_balance", "_record_action", "reset", "set", "__sub_borrow_amount", "__sub_supply_amount"]
+FX = ["subtract_from_balance", "add_to_balance", "_record_action", "reset", "set"]   # the two deduction helpers are inlined (their own resets are then visible)
 OPQ = ["sub_base_amount", "get_supply", "get_borrow", "health_factor", "supplies", "borrows", "collateral_value",
        "supplies_value", "borrows_value"]
 
